@@ -7,7 +7,8 @@
 (* Terminal states are printed as cases; all numbers are integers over the  *)
 (* denominator Den.  Kinds selects the family:                              *)
 (*   "cont" continuous kinds, "mixed" also Boolean and integer; "cont2" and   *)
-(*   "mixed2" are reduced kind sets for the two-variable families           *)
+(*   "mixed2" are reduced kind sets for the two-variable families; "offset"  *)
+(*   has the domains that exclude zero (Real(-inf, -2), Real(1, inf), ...)    *)
 EXTENDS Integers, Sequences, FiniteSets, TLC, Json, SequencesExt
 CONSTANTS NV, NR, CMag, Kinds, Den, Named
 
@@ -22,10 +23,14 @@ ZeroKinds == {K("real", Fin(0), Fin(2 * Den)), K("real", Fin(0), PInf), K("nnrea
 ContKinds == {K("real", MInf, PInf), K("nnreal", Fin(0), PInf), K("real", Fin(-1 * Den), Fin(2 * Den)),
               K("nnreal", Fin(1 * Den), Fin(3 * Den)), K("real", MInf, Fin(2 * Den)), K("real", Fin(-1 * Den), PInf)}
 IntKinds == {K("bool", Fin(0), Fin(Den)), K("int", Fin(-1 * Den), Fin(2 * Den))}
+\* domains that exclude zero (solver bridges shift, split or mirror variables around zero)
+OffsetKinds == {K("real", MInf, Fin(-2 * Den)), K("real", Fin(1 * Den), PInf), K("real", Fin(-3 * Den), Fin(-1 * Den)),
+                K("nnreal", Fin(2 * Den), PInf), K("int", Fin(-3 * Den), Fin(-1 * Den)), K("int", Fin(1 * Den), Fin(2 * Den))}
 KindSet == CASE Kinds = "cont" -> ContKinds \cup ZeroKinds
              [] Kinds = "cont2" -> (ContKinds \ {K("real", Fin(-1 * Den), Fin(2 * Den))}) \cup {K("real", Fin(0), Fin(2 * Den)), K("real", Fin(-2 * Den), Fin(0))}
              [] Kinds = "mixed2" -> {K("real", MInf, PInf), K("nnreal", Fin(0), PInf), K("real", Fin(0), Fin(2 * Den)),
                                      K("nnreal", Fin(1 * Den), Fin(3 * Den)), K("real", MInf, Fin(2 * Den))} \cup IntKinds
+             [] Kinds = "offset" -> OffsetKinds \cup {K("real", MInf, PInf), K("bool", Fin(0), Fin(Den))}
              [] OTHER -> ContKinds \cup ZeroKinds \cup IntKinds
 RhsSet == {-2 * Den, 0, 1, 3 * Den}
 Coefs == (-CMag)..CMag
